@@ -25,6 +25,8 @@ def check_qp_agg(ctx: Ctx, name, cls, J, Jt, dtype, s2, pref, reg_eps, norm_eps,
     m = len(J)
     # quarters: exactly representable in half / single / double precision (the preference vector need not be in J's dtype)
     pd = ctx.rng.choice([dtype, dtype, torch.float16, torch.float32, torch.float64])
+    if pref is not None and any(0 < v < Fr(1, 2 ** 14) for v in pref):
+        pd = ctx.rng.choice([dtype, torch.float32, torch.float64])          # (below half precision's normal range)
     A = cls(pref_vector=None if pref is None else torch.tensor([float(v) for v in pref], dtype=torch.float64).to(pd),
             norm_eps=norm_eps, reg_eps=reg_eps)
     st, x = run_agg(A, Jt)
@@ -134,7 +136,8 @@ def one_matrix(ctx: Ctx, J, Jt, dtype, fam, cheap_only=False):
              sample={"family": fam, "J": [[str(v) for v in r] for r in J[:3]], "dtype": str(dtype)})
     ctx.count("family", fam)
     norm_eps = 1e-4
-    prefs = [None, [Fr(rng.randint(0, 8), 4) for _ in range(m)]]
+    prefs = [None, [Fr(rng.randint(0, 8), 4) for _ in range(m)],
+             [Fr(rng.randint(1, 9), 2 ** rng.choice([27, 33, 40])) for _ in range(m)]]     # tiny preferences: same cone, same guarantee
     if float(s2) >= (2 * norm_eps) ** 2:
         pref = rng.choice(prefs)
         reg_eps = rng.choice([1e-4, 1e-4, 1e-2, 1e-6])
